@@ -164,9 +164,7 @@ bool Json::Private::readToken()
               return syntaxError(pos, "Unexpected end of file"), false;
             default:
               value.append('\\');
-              value.append(*pos.pos);
-              ++pos.pos;
-              break;
+              continue; // the next byte is read by the loop like any other (a line break is counted)
             }
           }
           break;
